@@ -91,8 +91,8 @@ def generate(tier):
         subsets = [list(s) for r in (1, 2, 3) for s in it.combinations(range(len(cand)), r)]
         if tier == "quick" and len(durs) == 3:
             subsets = subsets[::3]
-        for start in ("fresh", "continued", "override", "param-changed", "second-cycle"):
-            for sub in subsets:
+        for start in ("fresh", "continued", "override", "param-changed", "second-cycle", "late"):
+            for sub in subsets if start != "late" else [s for s in subsets if len(s) == 1]:
                 pts = [cand[i] for i in sub]
                 if max(pts) <= 0.0:
                     continue
@@ -102,7 +102,15 @@ def generate(tier):
                     cases.append({"rows": rows, "durs": durs, "form": "time_course", "grid": sub, "relative": rel, "start": start})
             for tps in (1, 3):
                 cases.append({"rows": rows, "durs": durs, "form": "protocol", "tps": tps, "start": start})
-            if len(durs) <= 2:
+            if len(durs) <= 2 and start != "second-cycle":
+                # requested points just before / after a step boundary are points of their own
+                for delta, rel in it.product((4e-6, 1e-3), (False, True)):
+                    b = durs[0]
+                    for pts in ([b - delta], [b + delta], [b - delta, b, b + delta]):
+                        if len(durs) == 1 and pts[-1] > b and len(pts) == 1:
+                            continue  # outside the protocol
+                        cases.append({"rows": rows, "durs": durs, "form": "time_course", "points": pts, "relative": rel, "start": start, "grid": []})
+            if len(durs) <= 2 and start != "late":
                 for cols in ("ck", "k"):
                     cases.append({"rows": rows, "durs": durs, "form": "protocol", "tps": 3, "start": start, "cols": cols})
                     for sub in subsets:
@@ -132,6 +140,12 @@ def check(case):
     x = X0
     segs = []  # (t0, x0, t1, params)
     params = dict(BASE)
+    if case["start"] == "late":
+        # the protocol continues a simulation that is already far along its time axis
+        sim.simulate(500.0, steps=2)
+        segs.append((0.0, X0, 500.0, dict(BASE)))
+        x = closed_form(500.0, 0.0, X0, {**BASE, "a": 0.0})
+        T = 500.0
     if case["start"] in ("continued", "override", "param-changed", "second-cycle"):
         sim.simulate(1.0, steps=2)
         segs.append((0.0, X0, 1.0, dict(BASE)))
@@ -177,7 +191,7 @@ def check(case):
     try:
         if case["form"] == "time_course":
             cand = candidates(case["durs"])
-            rel_pts = [cand[i] for i in case["grid"]]
+            rel_pts = list(case["points"]) if "points" in case else [cand[i] for i in case["grid"]]
             pts = rel_pts if case["relative"] else [start + p for p in rel_pts]
             arr = grid_obj if (grid_obj is not None and case["relative"]) else np.array(pts, dtype=float)
             sim.simulate_protocol_time_course(protocol, arr, time_points_as_relative=case["relative"])
